@@ -47,7 +47,10 @@ def run(ctx):
             if call_name(c) in DESTRUCTIVE:
                 ctx.check("deletes-only-listed-paths", where, c.args and norm(c.args[0]) == lv and g.loops_of(i), f"`{norm(c)[:50]}` deletes the loop's own path `{lv}`", construct=norm(c)[:60], message=f"`{norm(c)[:60]}` does not delete the path taken from `deletables`")
     # ---- provenance in clean_tree() --------------------------------------------------
+    from ..astutil import bind_roles, canonicalise
+
     fc = repo.func(CT, "clean_tree")
+    fc = canonicalise(fc, bind_roles(fc, {"tree": ("assign", "~WorkingTree\\.open_containing\\(.*\\)\\[0\\]"), "deletables": ("assign", "~list\\(iter_deletables\\(.*\\)\\)")}, f"{CT}:clean_tree"))
     wc = f"{CT}:clean_tree"
     binds = [(norm(s.targets[0]), norm(s.value)) for s in walk_own(fc) if isinstance(s, ast.Assign)]
     d_binds = [v for t, v in binds if t == "deletables"]
@@ -64,7 +67,7 @@ def run(ctx):
         r = g_noprompt.copy_without(cut).reachable_from_entry()
         ctx.check("prompt-respected", wc, not (set(din) & r), "without no_prompt, deletion happens only after the user confirmed")
     # ---- iter_deletables ---------------------------------------------------------------
-    fn, g, where = fn_cfg(ctx, CT, "iter_deletables")
+    fn, g, where = fn_cfg(ctx, CT, "iter_deletables", roles={"subp": ("for", "tree.extras()")})
     ys = [n.id for n in g.nodes if n.kind == "stmt" and isinstance(n.ast, ast.Expr) and isinstance(n.ast.value, ast.Yield)]
     ctx.require(len(ys) >= 3, f"{where}: yields not found")
     hdr = [n for n in g.nodes if n.kind == "for"]
@@ -83,7 +86,7 @@ def run(ctx):
     env_det = g.assume({"detritus": True, "is_detritus(subp)": False, "detritus and is_detritus(subp)": False, "unknown": False, "ignored": False})
     ctx.check("category-guards", where, not (set(ys) & env_det.reachable_from_entry()), "`detritus` alone selects only detritus-named files")
     # ---- nested control dirs --------------------------------------------------------------
-    fn, g, where = fn_cfg(ctx, CT, "_filter_out_nested_controldirs")
+    fn, g, where = fn_cfg(ctx, CT, "_filter_out_nested_controldirs", roles={"result": ("return", None, None), "path": ("for", "deletables", 0)})
     apps = need(where, calling(g, attr="append", recv="result"), "result.append")
     opens = need(where, calling(g, name="controldir.ControlDir.open"), "ControlDir.open(path)")
     hs = [n.id for n in g.nodes if n.kind == "handler" and "NotBranchError" in norm(n.ast.type)]
@@ -98,6 +101,7 @@ def run(ctx):
     # ---- the enumeration of unversioned paths does not walk through symlinks ---------------------
     WT = "breezy/bzr/workingtree.py"
     fe = repo.func(WT, "InventoryWorkingTree.extras")
+    fe = canonicalise(fe, bind_roles(fe, {"dirabs": ("assign", "~self\\.abspath\\(\\w+\\)")}, f"{WT}:InventoryWorkingTree.extras"))
     ge = build_cfg(fe)
     we = f"{WT}:InventoryWorkingTree.extras"
     ls = need(we, calling(ge, name="os.listdir"), "os.listdir(...)")
